@@ -1,6 +1,7 @@
 import SE.Model.Exporter
 import SE.Driver.Mapper
 import SE.Driver.Line
+import SE.Model.Hash
 /-
 `pipe` command: a whole history of the ingestion pipeline on one line.
 `pipe <flags> <npre> (<hexname> <c|g|h|s> <hexhelp>)* | sub ; sub ; …`
@@ -119,6 +120,31 @@ def pipeSub (s : PipeSess) (toks : List String) : PipeSess × String :=
     let notes := counterNotes s.prevCounters cur
     ({ s with prevCounters := cur }, scrapeStr s.p ++ (if notes.isEmpty then "" else "\t" ++ "|".intercalate notes))
   | _ => (s, "bad-op")
+
+def rdMap : Rd Labels := do
+  let n ← rdNat
+  let kvs ← rdMany n rdLabel
+  pure (kvs.foldl (fun (l : Labels) kv => l.set kv.1 kv.2) [])
+
+def rdTwoMaps : Rd (Labels × Labels) := do
+  let a ← rdMap
+  let t ← tok
+  if t != "/" then failure else
+  let b ← rdMap
+  pure (a, b)
+
+/-- `hl <n> (k v)* / <m> (k v)*`: do two label maps get the same names hash / values hash? (same iff the
+    hash inputs are equal; FNV-64a collisions are assumed away) -/
+def hlCmd (args : List String) : String :=
+  match rdTwoMaps.run args with
+  | some ((a, b), []) =>
+    let n := if namesHashInput a == namesHashInput b then "same" else "diff"
+    let v := if valuesHashInput a == valuesHashInput b then "same" else "diff"
+    -- specification: names hash equal iff same name set; values hash equal iff same label set
+    let sn := if a.sorted.map (·.1) == b.sorted.map (·.1) then "same" else "diff"
+    let sv := if a.sorted == b.sorted then "same" else "diff"
+    s!"N={n} V={v}" ++ (if n == sn && v == sv then "" else "\thash:none:spec says N={sn} V={sv}")
+  | _ => "bad-op"
 
 def rdPre : Rd (Bytes × MType × Bytes) := do
   let n ← rdHex
